@@ -454,11 +454,11 @@ func checkC13(c *Ctx, r *Report) {
 					if !is || fname(fv) != "isExpired" {
 						return
 					}
-					if mc, isMC := st.Val.(*ssa.MakeClosure); isMC {
-						cl := mc.Fn.(*ssa.Function)
+					// a literal, or a method value (isExpired: c.isExpired)
+					if cl, cps := funcValueBody(st.Val); cl != nil && len(cps) > 0 {
 						lookup, before := false, false
 						for _, ml := range lookupsIn(cl) {
-							if sameVal(ml.key, cl.Params[0]) {
+							if sameVal(ml.key, cps[0]) {
 								lookup = true
 							}
 						}
